@@ -170,6 +170,29 @@ class Executor2(Executor):
         return Executor.attr_of(self, st, base, attr, lineno)
 
     def set_attr(self, st, obj, attr, val, lineno=None):
+        if obj.kind == "ref" and not self.spec:
+            try:
+                key0, f0 = self.field(obj.cls, attr)
+            except Unsupported:
+                key0, f0 = None, None
+            if f0 is not None and f0.kind == "lenlist":
+                # obj.field = <a list>: only its length is kept
+                self.require_not_none(st, obj, "store .%s" % attr, lineno)
+                arr, na = self.heap_arrays(st, key0, f0)
+                if val.kind in ("list_lit", "tuple"):
+                    n = z3.IntVal(len(val.t))
+                elif val.kind == "emptylist":
+                    n = z3.IntVal(0)
+                elif val.kind == "lenlist":
+                    n = val.t
+                else:
+                    self.fresh_n += 1
+                    n = z3.Int("hvlen_%s!%d" % (attr, self.fresh_n))
+                    st.assume(n >= 0)
+                    if val.kind != "opaque":
+                        raise Unsupported("store of %s to the length-modelled list field .%s" % (val.kind, attr))
+                st.heap[key0] = (z3.Store(arr, obj.t, n), na)
+                return
         if self.lenient and not self.spec:
             if obj.kind == "opaque":
                 return
